@@ -298,7 +298,7 @@ def rule_r4(ck, prog):
     if not rec:
         ck.anchor_lost("C09-R4", "struct _scpi_parser_state_t")
         return
-    pg, st = X.must_stored(fn, addr_counts=True)
+    pg, st = X.must_stored(fn, addr_counts=True, prog=prog)
     at_exit = st.get(pg.exit)
     if at_exit is None:
         ck.anchor_lost("C09-R4", "exit of the detector unreachable")
